@@ -145,8 +145,26 @@ M = [
     ('macro_hidden', 'src/primitives/rectangle/styled.rs',
      'target.fill_solid(&top_border, stroke_color)?;',
      'quiet_fill!(target, &top_border, stroke_color);'),
+    # 16. (audit 1, gap 1) swallowing helper under #[cfg(not(test))]: its cfg text contains "test" but it is NOT test-only
+    ('cfg_not_test_helper', 'src/primitives/rectangle/styled.rs',
+     'target.fill_solid(&top_border, stroke_color)?;',
+     'fill_quietly(target, &top_border, stroke_color);'),
+    # 17. (audit 1, gap 2) propagating fn used as a bare value, called through the variable, result discarded
+    ('fn_pointer_value', 'src/primitives/polyline/styled.rs',
+     '                        draw_thick(self, style, stroke_color, target)\n',
+     '                        let f = draw_thick;\n                        let _ = f(self, style, stroke_color, target);\n                        Ok(())\n'),
+    # 18. adapter converts the error through a wrapper type is not expressible without changing the public API; instead:
+    #     `?` inside a helper that returns Option (error dropped by conversion)
+    ('try_in_option_fn', 'src/primitives/rectangle/styled.rs',
+     'target.fill_solid(&bottom_border, stroke_color)?;',
+     'let _ = fill_opt(target, &bottom_border, stroke_color);'),
+    # seeded changes of the coordinator (patch files)
+    ('SEEDED_C04_A', None, '/verif/seeded/C04-A/patch.diff', None),
+    ('SEEDED_C04_B', None, '/verif/seeded/C04-B/patch.diff', None),
 ]
-PRE = {'macro_hidden': ('fn dot_positions_with_dotted_corners(', 'macro_rules! quiet_fill {\n    ($t:expr, $r:expr, $c:expr) => {\n        let _ = $t.fill_solid($r, $c);\n    };\n}\n\nfn dot_positions_with_dotted_corners('),
+PRE = {'cfg_not_test_helper': ('fn dot_positions_with_dotted_corners(', '#[cfg(not(test))]\nfn fill_quietly<D: DrawTarget>(t: &mut D, r: &Rectangle, c: D::Color) {\n    t.fill_solid(r, c).ok();\n}\n#[cfg(test)]\nfn fill_quietly<D: DrawTarget>(t: &mut D, r: &Rectangle, c: D::Color) {\n    t.fill_solid(r, c).ok();\n}\n\nfn dot_positions_with_dotted_corners('),
+       'try_in_option_fn': ('fn dot_positions_with_dotted_corners(', 'fn fill_opt<D: DrawTarget>(t: &mut D, r: &Rectangle, c: D::Color) -> Option<()> {\n    t.fill_solid(r, c).ok()?;\n    Some(())\n}\n\nfn dot_positions_with_dotted_corners('),
+       'macro_hidden': ('fn dot_positions_with_dotted_corners(', 'macro_rules! quiet_fill {\n    ($t:expr, $r:expr, $c:expr) => {\n        let _ = $t.fill_solid($r, $c);\n    };\n}\n\nfn dot_positions_with_dotted_corners('),
        'BENIGN_new_helper': ('fn dot_positions_with_dotted_corners(', 'fn draw_sides<D: DrawTarget>(t: &mut D, l: &Rectangle, r: &Rectangle, c: D::Color) -> Result<(), D::Error> {\n    t.fill_solid(l, c)?;\n    t.fill_solid(r, c)\n}\n\nfn dot_positions_with_dotted_corners('),
        'helper_without_result': ('fn dot_positions_with_dotted_corners(', 'fn fill_quietly<D: DrawTarget>(t: &mut D, r: &Rectangle, c: D::Color) {\n    t.fill_solid(r, c).ok();\n}\n\nfn dot_positions_with_dotted_corners('),
        'polyline_thick_continue': ('for line in ScanlineIterator::new(polyline, style) {', 'let mut first = None;\n    for line in ScanlineIterator::new(polyline, style) {')}
@@ -156,7 +174,115 @@ def sh(cmd, **kw):
     return subprocess.run(cmd, shell=True, stdout=subprocess.PIPE, stderr=subprocess.STDOUT, text=True, **kw)
 
 
+def run_one(name):
+    r = sh('timeout 1500 ./check C04', cwd=V, env=dict(os.environ, EG_REPO=S))
+    lines = [l for l in r.stdout.splitlines() if l.startswith(('VIOLATION', 'OK', 'KNOWN'))]
+    if name.startswith('BENIGN'):
+        ok = r.returncode == 0 and any(l.startswith('OK') for l in lines)
+    else:
+        ok = r.returncode == 1 and any(l.startswith('VIOLATION') for l in lines)
+    print('MUTATION %-36s exit=%d %s' % (name, r.returncode, ('CAUGHT' if ok else 'MISSED') if not name.startswith('BENIGN') else ('STAYS-OK' if ok else 'FALSE-ALARM')))
+    for l in lines[:2]:
+        print('    ' + l)
+        m = re.search(r'replay=(\S+)', l)
+        if m:
+            d = json.load(open(os.path.join(V, m.group(1))))
+            what = d.get('input') or d.get('theorem_or_suite') or d.get('log', '')
+            print('      %s: %s' % (d['kind'], str(what)[:420].replace('\n', ' ')))
+            if d.get('observed'):
+                print('      observed: %s' % d['observed'][:300])
+    ev = json.load(open(os.path.join(V, 'evidence', 'C04.json')))['coverage']
+    static = ev.get('discharged') != ev.get('obligations') or any('translator' in str(n) or 'proof' in str(n) for n in ev.get('notes', []))
+    print('    static side (translator + Coq reflection): %s   theorems %s/%s  notes=%s' % (
+        'BROKEN (caught)' if static else 'still passes', ev.get('discharged'), ev.get('obligations'), ev.get('notes')))
+    return ok
+
+
+def per_site():
+    """One swallow-the-error mutation per translated call site (79 on the unchanged tree), generated from the translator's
+    own site list: `call?` -> `call.unwrap_or_default()`, tail/return `call` -> `call.or_else(|_| Ok(Default::default()))`.
+    Requires the SWEEP ALONE to report a failing input for each (the static side catches all of them trivially).
+    Writes translate/errflow/site_coverage.txt."""
+    sh('git -C /repo worktree remove --force %s' % S)
+    r = sh('git -C /repo worktree add --detach %s HEAD' % S)
+    if r.returncode != 0:
+        print(r.stdout)
+        return 2
+    tsv = '/tmp/errflow-sites.tsv'
+    r = sh('%s/.build/errflow/release/errflow /repo /tmp/errflow-sites.v --sites %s' % (V, tsv))
+    sites = [l.rstrip('\n').split('\t') for l in open(tsv)]
+    only = [a for a in sys.argv[2:]]
+    only_again = ['src/primitives/styled.rs:121']    # Styled::draw returns the generic Self::Output
+    rows = []
+    try:
+        for f, callee, use, l0, c0, l1, c1 in sites:
+            key = '%s:%s' % (f, l0)
+            if only and key not in only:
+                continue
+            p = os.path.join(S, f)
+            src = open(p).read()
+            lines = src.split('\n')
+            # offset of the end of the call expression
+            li = int(l1) - 1
+            line = lines[li]
+            # columns count characters
+            head, tail = line[:int(c1)], line[int(c1):]
+            if use == 'Try':
+                rest = '\n'.join([tail] + lines[li + 1:])
+                m = re.match(r'(\s*)\?', rest)
+                if not m:
+                    rows.append((key, callee, use, 'NO-PATTERN'))
+                    continue
+                rest = '.unwrap_or_default()' + rest[m.end():]
+                mut = '\n'.join(lines[:li] + [head + rest])
+            elif use == 'Result':
+                mut = '\n'.join(lines[:li] + [head + '.or_else(|_| Ok(Default::default()))' + tail] + lines[li + 1:])
+            else:
+                rows.append((key, callee, use, 'NOT-A-PROPAGATED-SITE'))
+                continue
+            if key in only_again or os.environ.get('SITE_MUTATION') == 'again':
+                # fallback where no Ok value can be made up (generic Output): on error, make the same call once more,
+                # then return the error -> "a call after the failing one"
+                a = sum(len(x) + 1 for x in lines[:int(l0) - 1]) + int(c0)
+                b = sum(len(x) + 1 for x in lines[:li]) + int(c1)
+                call = src[a:b]
+                mut = src[:a] + '{ let r__ = ' + call + '; if r__.is_err() { let _ = ' + call + '; } r__ }' + src[b:]
+            open(p, 'w').write(mut)
+            r = sh('timeout 1500 ./check C04', cwd=V, env=dict(os.environ, EG_REPO=S))
+            verdict = 'MISSED'
+            detail = ''
+            for l in r.stdout.splitlines():
+                m = re.search(r'^VIOLATION.*replay=(\S+)', l)
+                if m:
+                    d = json.load(open(os.path.join(V, m.group(1))))
+                    if d['kind'] == 'failing-input':
+                        verdict = 'SWEEP-CAUGHT'
+                        detail = d['input'][:90] + ' -> ' + d['observed'][:60]
+                        break
+                    elif d['kind'] == 'implementation-does-not-build':
+                        verdict = 'MUTANT-DOES-NOT-BUILD'
+                        detail = d.get('log', '')[-300:].replace('\n', ' ')
+                    elif verdict == 'MISSED':
+                        verdict = 'STATIC-ONLY'
+            rows.append((key, callee, use, verdict, detail))
+            print('SITE %-52s %-16s %-7s %s %s' % (key, callee, use, verdict, detail), flush=True)
+            open(p, 'w').write(src)
+    finally:
+        sh('git -C /repo worktree remove --force %s' % S)
+    n = sum(1 for r_ in rows if r_[3] == 'SWEEP-CAUGHT')
+    print('sweep alone caught %d of %d sites' % (n, len(rows)))
+    if not only:
+        with open(os.path.join(V, 'translate', 'errflow', 'site_coverage.txt'), 'w') as fo:
+            fo.write('# per-site swallow mutation (mutation_tests.py --per-site): does p_errflow ALONE produce a failing input?\n')
+            for r_ in rows:
+                fo.write('%s\t%s\t%s\t%s\n' % r_[:4])
+            fo.write('# sweep alone caught %d of %d sites\n' % (n, len(rows)))
+    return 0
+
+
 def main():
+    if sys.argv[1:2] == ['--per-site']:
+        return per_site()
     want = sys.argv[1:]
     sh('git -C /repo worktree remove --force %s' % S)
     r = sh('git -C /repo worktree add --detach %s HEAD' % S)
@@ -170,6 +296,14 @@ def main():
             if want and name not in want:
                 continue
             total += 1
+            if f is None:      # patch file
+                r = sh('git -C %s apply %s' % (S, old))
+                if r.returncode != 0:
+                    print('MUTATION %s: patch does not apply: %s' % (name, r.stdout))
+                    continue
+                caught += run_one(name)
+                sh('git -C %s checkout -- .' % S)
+                continue
             p = os.path.join(S, f)
             src = open(p).read()
             if src.count(old) < 1:
@@ -181,27 +315,7 @@ def main():
                 assert a in mut
                 mut = mut.replace(a, b, 1)
             open(p, 'w').write(mut)
-            r = sh('timeout 1500 ./check C04', cwd=V, env=dict(os.environ, EG_REPO=S))
-            lines = [l for l in r.stdout.splitlines() if l.startswith(('VIOLATION', 'OK', 'KNOWN'))]
-            if name.startswith('BENIGN'):
-                ok = r.returncode == 0 and any(l.startswith('OK') for l in lines)
-            else:
-                ok = r.returncode == 1 and any(l.startswith('VIOLATION') for l in lines)
-            caught += ok
-            print('MUTATION %-36s exit=%d %s' % (name, r.returncode, ('CAUGHT' if ok else 'MISSED') if not name.startswith('BENIGN') else ('STAYS-OK' if ok else 'FALSE-ALARM')))
-            for l in lines[:2]:
-                print('    ' + l)
-                m = re.search(r'replay=(\S+)', l)
-                if m:
-                    d = json.load(open(os.path.join(V, m.group(1))))
-                    what = d.get('input') or d.get('theorem_or_suite') or d.get('log', '')
-                    print('      %s: %s' % (d['kind'], str(what)[:420].replace('\n', ' ')))
-                    if d.get('observed'):
-                        print('      observed: %s' % d['observed'][:300])
-            ev = json.load(open(os.path.join(V, 'evidence', 'C04.json')))['coverage']
-            static = ev.get('discharged') != ev.get('obligations') or any('translator' in str(n) or 'proof' in str(n) for n in ev.get('notes', []))
-            print('    static side (translator + Coq reflection): %s   theorems %s/%s  notes=%s' % (
-                'BROKEN (caught)' if static else 'still passes', ev.get('discharged'), ev.get('obligations'), ev.get('notes')))
+            caught += run_one(name)
             open(p, 'w').write(src)
     finally:
         sh('git -C /repo worktree remove --force %s' % S)
